@@ -13,16 +13,45 @@ namespace Neumann.KV
 
 /-! ### keys, values -/
 
-/-- `SlabRouter::classify_key` (the prefix decides; the harness renders `plain` as `user:<id>`,
-    `graph` as `node:<id>`, `table` as `table:<id>`, `cache` as `_cache:<id>`, `emb` as `emb:<id>`) -/
+/-- `SlabRouter::KeyClass` (`plain` = `Metadata`) -/
 inductive KeyClass where
   | plain | graph | table | cache | emb
   deriving DecidableEq, Repr
 
+/-- a key: the UTF-8 bytes of the Rust `String` (every byte < 256; the model is total on any list) -/
 structure Key where
-  cls : KeyClass
-  id : Nat
+  bytes : List Nat
   deriving DecidableEq, Repr
+
+/-- `str::starts_with` on bytes: `p` is a prefix of `k` -/
+def isPfx : List Nat → List Nat → Bool
+  | [], _ => true
+  | _ :: _, [] => false
+  | a :: p, b :: k => a == b && isPfx p k
+
+def pfxEmb : List Nat := [101, 109, 98, 58]              -- "emb:"
+def pfxNode : List Nat := [110, 111, 100, 101, 58]       -- "node:"
+def pfxEdge : List Nat := [101, 100, 103, 101, 58]       -- "edge:"
+def pfxTable : List Nat := [116, 97, 98, 108, 101, 58]   -- "table:"
+def pfxCache : List Nat := [95, 99, 97, 99, 104, 101, 58] -- "_cache:"
+def pfxUser : List Nat := [117, 115, 101, 114, 58]       -- "user:" (one of the plain keys)
+
+/-- `SlabRouter::classify_key`: the prefix decides, in this order -/
+def classify (b : List Nat) : KeyClass :=
+  if isPfx pfxEmb b then .emb
+  else if isPfx pfxNode b || isPfx pfxEdge b then .graph
+  else if isPfx pfxTable b then .table
+  else if isPfx pfxCache b then .cache
+  else .plain
+
+def Key.cls (k : Key) : KeyClass := classify k.bytes
+
+/-- the keys the harness contends on: `user:<d>`, `node:<d>`, `table:<d>`, `_cache:<d>`, `emb:<d>`
+    (one decimal digit `d`; the driver renders every natural number) -/
+def clsPrefix : KeyClass → List Nat
+  | .plain => pfxUser | .graph => pfxNode | .table => pfxTable | .cache => pfxCache | .emb => pfxEmb
+
+def mkKey (c : KeyClass) (d : Nat) : Key := ⟨clsPrefix c ++ [48 + d]⟩
 
 /-- the `_embedding` field of a `TensorData`: absent, a vector of the slab's dimension (384) whose
     components all equal `t`, or a vector of another dimension -/
@@ -103,7 +132,7 @@ inductive Op where
   | get (k : Key)
   | delete (k : Key)
   | exists_ (k : Key)
-  | scan (p : Option KeyClass)      -- prefix of one class (`user:` `node:` `table:` `_cache:` `emb:`) or ""
+  | scan (p : List Nat)             -- the bytes of the prefix (any string; "" = everything)
   | putD (k : Key) (v : Val)        -- `put_durable`
   | delD (k : Key)                  -- `delete_durable`
   deriving DecidableEq, Repr
@@ -150,16 +179,120 @@ def existsNow (s : Store) (k : Key) : Bool :=
   | .cache => (aget s.cache k).isSome
   | _ => (aget s.md k).isSome
 
-def pmatch (p : Option KeyClass) (k : Key) : Bool :=
-  match p with
-  | none => true
-  | some c => decide (k.cls = c)
+/-- THE SPECIFICATION of a prefix scan (and what `EntityIndex::scan_prefix` / `CacheRing::scan_prefix`
+    compute): `key.starts_with(prefix)`, byte-wise -/
+def pmatch (p : List Nat) (k : Key) : Bool := isPfx p k.bytes
+
+/-! #### `MetadataSlab::scan`: one shard, a `BTreeMap` range -/
+
+/-- `shard_index`: first byte mod 16 (the empty key lives in shard 0) -/
+def shardOf : List Nat → Nat
+  | [] => 0
+  | b :: _ => b % 16
+
+/-- `String`'s `Ord`: byte-wise lexicographic, `a ≤ b` -/
+def bleq : List Nat → List Nat → Bool
+  | [], _ => true
+  | _ :: _, [] => false
+  | x :: a, y :: b => decide (x < y) || (x == y && bleq a b)
+
+/-- `a < b` -/
+def blt (a b : List Nat) : Bool := !bleq b a
+
+/-- the UTF-8 decoder of `core::str::from_utf8` as a state machine (Unicode table 3-7): which
+    bytes may follow -/
+inductive U8 where
+  | s0    -- between characters
+  | c1    -- one continuation byte 80..BF to come
+  | c2    -- two, the next in 80..BF
+  | c2a   -- two, the next in A0..BF (lead E0)
+  | c2b   -- two, the next in 80..9F (lead ED: no surrogates)
+  | c3    -- three, the next in 80..BF
+  | c3a   -- three, the next in 90..BF (lead F0)
+  | c3b   -- three, the next in 80..8F (lead F4)
+  deriving DecidableEq, Repr
+
+def u8step : U8 → Nat → Option U8
+  | .s0, b =>
+      if b < 0x80 then some .s0
+      else if 0xC2 ≤ b ∧ b ≤ 0xDF then some .c1
+      else if b = 0xE0 then some .c2a
+      else if b = 0xED then some .c2b
+      else if 0xE1 ≤ b ∧ b ≤ 0xEF then some .c2
+      else if b = 0xF0 then some .c3a
+      else if b = 0xF4 then some .c3b
+      else if 0xF1 ≤ b ∧ b ≤ 0xF3 then some .c3
+      else none
+  | .c1, b => if 0x80 ≤ b ∧ b ≤ 0xBF then some .s0 else none
+  | .c2, b => if 0x80 ≤ b ∧ b ≤ 0xBF then some .c1 else none
+  | .c2a, b => if 0xA0 ≤ b ∧ b ≤ 0xBF then some .c1 else none
+  | .c2b, b => if 0x80 ≤ b ∧ b ≤ 0x9F then some .c1 else none
+  | .c3, b => if 0x80 ≤ b ∧ b ≤ 0xBF then some .c2 else none
+  | .c3a, b => if 0x90 ≤ b ∧ b ≤ 0xBF then some .c2 else none
+  | .c3b, b => if 0x80 ≤ b ∧ b ≤ 0x8F then some .c2 else none
+
+def u8run : U8 → List Nat → Option U8
+  | st, [] => some st
+  | st, b :: r =>
+      match u8step st b with
+      | some st' => u8run st' r
+      | none => none
+
+/-- `String::from_utf8(bytes).is_ok()` -/
+def validUtf8 (l : List Nat) : Bool := u8run .s0 l == some .s0
+
+/-- the loop of `next_prefix` on the reversed bytes: drop trailing `0xFF`s, add one to the byte
+    before them -/
+def incLastRev : List Nat → Option (List Nat)
+  | [] => none
+  | last :: r => if last < 0xff then some ((last + 1) :: r) else incLastRev r
+
+/-- the bytes `next_prefix` builds, before it converts them into a `String` -/
+def incLast (p : List Nat) : Option (List Nat) := (incLastRev p.reverse).map List.reverse
+
+/-- `metadata_slab::next_prefix`: "the smallest string greater than all strings starting with the
+    prefix" - `None` when the prefix is empty, when every byte is `0xFF`, AND when the incremented
+    bytes are not UTF-8 (`String::from_utf8(bytes).ok()`): a last byte `0x7F` becomes `0x80`, a last
+    byte `0xBF` (every character whose code point is 63 mod 64: `?`+64n, e.g. `п` U+043F, `ÿ` U+00FF)
+    becomes `0xC0` -/
+def nextPrefix (p : List Nat) : Option (List Nat) :=
+  match incLast p with
+  | some e => if validUtf8 e then some e else none
+  | none => none
+
+/-- `MetadataSlab::scan(prefix)` lists key `k` of the slab: the empty prefix reads every shard; any
+    other prefix reads the ONE shard of its first byte and there the range `prefix .. end_key`, or
+    `prefix ..` (THE REST OF THE SHARD) when `next_prefix` is `None` -/
+def mdMatch (p : List Nat) (k : Key) : Bool :=
+  if p = [] then true else
+  decide (shardOf k.bytes = shardOf p) &&
+    (match nextPrefix p with
+     | some e => bleq p k.bytes && blt k.bytes e
+     | none => bleq p k.bytes)
 
 /-- `SlabRouter::scan`: metadata shard(s), then entity index, then cache ring (no yield point
-    between the three reads: one step at the granularity of the hooks) -/
-def scanNow (s : Store) (p : Option KeyClass) : List Key :=
-  (s.md.map (·.1)).filter (pmatch p) ++ (liveKeys s.vocab).filter (pmatch p)
+    between the three reads: one step at the granularity of the hooks); a `HashSet` in the code -/
+def scanNow (s : Store) (p : List Nat) : List Key :=
+  (s.md.map (·.1)).filter (mdMatch p) ++ (liveKeys s.vocab).filter (pmatch p)
     ++ (s.cache.map (·.1)).filter (pmatch p)
+
+/-- NOT the code: the repair proposed in `proposed/C11-scan-prefix-without-successor.diff`
+    (`range(prefix..).take_while(|(k, _)| k.starts_with(prefix))` where there is no end key; on
+    the sorted shard that is the filter, see `ScanLemmas.takeWhile_pfx_eq_filter`) -/
+def mdMatchFixed (p : List Nat) (k : Key) : Bool :=
+  if p = [] then true else
+  decide (shardOf k.bytes = shardOf p) &&
+    (match nextPrefix p with
+     | some e => bleq p k.bytes && blt k.bytes e
+     | none => bleq p k.bytes && isPfx p k.bytes)
+
+def scanNowFixed (s : Store) (p : List Nat) : List Key :=
+  (s.md.map (·.1)).filter (mdMatchFixed p) ++ (liveKeys s.vocab).filter (pmatch p)
+    ++ (s.cache.map (·.1)).filter (pmatch p)
+
+/-- a prefix on which `MetadataSlab::scan` answers by `starts_with`: the empty one, or a string
+    (`&str`: UTF-8) whose `next_prefix` exists -/
+def boundedPrefix (p : List Nat) : Bool := p.isEmpty || (validUtf8 p && (nextPrefix p).isSome)
 
 /-- first step of `SlabRouter::put` (runs at `store.put`, or at `router.put_durable.after_log`) -/
 def routerPut (s : Store) (k : Key) (v : Val) : Store × Outcome :=
@@ -438,7 +571,7 @@ def seqOp (s : Store) (op : Op) : Store × Res := seqOpAux 5 s op .start
 
 /-- what a reader sees of key `k` in a quiescent store -/
 def view (s : Store) (k : Key) : Res × Bool × Bool :=
-  ((seqOp s (.get k)).2, existsNow s k, decide (k ∈ scanNow s none))
+  ((seqOp s (.get k)).2, existsNow s k, decide (k ∈ scanNow s []))
 
 /-! ### recovery: replay of the log over an empty store (`SlabRouter::recover`, no snapshot) -/
 
@@ -545,13 +678,22 @@ def Op.nonDurable : Op → Bool
   | .putD .. | .delD .. => false
   | _ => true
 
+/-- every scan of the program has a prefix with an end key (`boundedPrefix`); on the others the
+    code over-returns, see `ScanProps.scan_prefix_without_successor_witness` -/
+def Op.scanBounded : Op → Bool
+  | .scan p => boundedPrefix p
+  | _ => true
+
+/-- put / get / delete / exists, and scans whose prefix has an end key -/
+def Op.nonDurableBounded (op : Op) : Bool := op.nonDurable && op.scanBounded
+
 end Neumann.KV
 
 /-! ### witness interleavings (proved in `Props.lean`, replayed on the real store by `corr_kv`) -/
 namespace Neumann.KV
 
-def kE1 : Key := ⟨.emb, 1⟩
-def kP1 : Key := ⟨.plain, 1⟩
+def kE1 : Key := mkKey .emb 1
+def kP1 : Key := mkKey .plain 1
 
 /-- two writers of `emb:1` and one reader, all three overlapping -/
 def embMixtureProgs : List ThreadProgram :=
